@@ -108,29 +108,47 @@ func (dc *agentConnection) Write(b []byte) (int, error) {
 	dc.m.Lock()
 	defer dc.m.Unlock()
 
-	payload := make([]byte, len(b))
+	// a message carries its length, and the length of its payload, in 16
+	// bits: what a service writes in one go is sent in pieces that fit
+	written := 0
 
-	copy(payload, b)
+	for {
+		chunk := b[written:]
+		if len(chunk) > maxPayload {
+			chunk = chunk[:maxPayload]
+		}
 
-	p := ReadWriteTCP{
-		Laddr:   dc.LocalAddr(),
-		Raddr:   dc.RemoteAddr(),
-		Payload: payload[:],
+		payload := make([]byte, len(chunk))
+
+		copy(payload, chunk)
+
+		p := ReadWriteTCP{
+			Laddr:   dc.LocalAddr(),
+			Raddr:   dc.RemoteAddr(),
+			Payload: payload[:],
+		}
+
+		after := noDeadline
+		if !dc.writeTimeout.IsZero() {
+			after = time.After(time.Until(dc.writeTimeout))
+		}
+
+		select {
+		case <-after:
+			return written, ErrTimeout
+		case dc.out <- p:
+		}
+
+		written += len(chunk)
+
+		if written >= len(b) {
+			return written, nil
+		}
 	}
-
-	after := noDeadline
-	if !dc.writeTimeout.IsZero() {
-		after = time.After(time.Until(dc.writeTimeout))
-	}
-
-	select {
-	case <-after:
-		return 0, ErrTimeout
-	case dc.out <- p:
-	}
-
-	return len(b), nil
 }
+
+// maxPayload is the most one ReadWriteTCP message carries
+const maxPayload = 32 * 1024
 
 func (dc *agentConnection) Close() error {
 	dc.m.Lock()
